@@ -99,6 +99,44 @@ func specInt(n int, err error) string {
 	return strconv.Itoa(n)
 }
 
+// renderRec renders one record the reader delivered.
+func renderRec(recAny benchfmt.Record) string {
+	switch rec := recAny.(type) {
+	case *benchfmt.Result:
+		if len(rec.Values) != 1 {
+			return fmt.Sprintf("result:nvalues=%d", len(rec.Values))
+		}
+		v := rec.Values[0]
+		s := fmt.Sprintf("ok:iters=%d:val=%s", rec.Iters, canon(v.Value))
+		if v.Unit != "u" || v.OrigUnit != "" {
+			s += ":unit=" + hx.HexS(v.Unit) + ":orig=" + hx.HexS(v.OrigUnit)
+		}
+		if string(rec.Name) != "X" {
+			s += ":name=" + hx.Hex(rec.Name)
+		}
+		return s
+	case *benchfmt.SyntaxError:
+		var m string
+		switch rec.Msg {
+		case "parsing iteration count: invalid syntax":
+			m = "iters-syntax"
+		case "parsing iteration count: value out of range":
+			m = "iters-range"
+		case "parsing measurement: invalid syntax":
+			m = "val-syntax"
+		case "parsing measurement: value out of range":
+			m = "val-range"
+		default:
+			m = "msg" + hx.HexS(rec.Msg)
+		}
+		return fmt.Sprintf("err:%s:file=%s:line=%d", m, rec.FileName, rec.Line)
+	default:
+		return fmt.Sprintf("other:%T", rec)
+	}
+
+	return "?"
+}
+
 // readLine runs the public reader on the one-line file and renders what it delivers.
 func readLine(iters, num []byte) string {
 	var buf bytes.Buffer
@@ -110,39 +148,7 @@ func readLine(iters, num []byte) string {
 	r := benchfmt.NewReader(bytes.NewReader(buf.Bytes()), "f")
 	var out []string
 	for r.Scan() {
-		switch rec := r.Result().(type) {
-		case *benchfmt.Result:
-			if len(rec.Values) != 1 {
-				out = append(out, fmt.Sprintf("result:nvalues=%d", len(rec.Values)))
-				break
-			}
-			v := rec.Values[0]
-			s := fmt.Sprintf("ok:iters=%d:val=%s", rec.Iters, canon(v.Value))
-			if v.Unit != "u" || v.OrigUnit != "" {
-				s += ":unit=" + hx.HexS(v.Unit) + ":orig=" + hx.HexS(v.OrigUnit)
-			}
-			if string(rec.Name) != "X" {
-				s += ":name=" + hx.Hex(rec.Name)
-			}
-			out = append(out, s)
-		case *benchfmt.SyntaxError:
-			var m string
-			switch rec.Msg {
-			case "parsing iteration count: invalid syntax":
-				m = "iters-syntax"
-			case "parsing iteration count: value out of range":
-				m = "iters-range"
-			case "parsing measurement: invalid syntax":
-				m = "val-syntax"
-			case "parsing measurement: value out of range":
-				m = "val-range"
-			default:
-				m = "msg" + hx.HexS(rec.Msg)
-			}
-			out = append(out, fmt.Sprintf("err:%s:file=%s:line=%d", m, rec.FileName, rec.Line))
-		default:
-			out = append(out, fmt.Sprintf("other:%T", rec))
-		}
+		out = append(out, renderRec(r.Result()))
 	}
 	if err := r.Err(); err != nil {
 		out = append(out, "ioerr")
@@ -154,6 +160,12 @@ func readLine(iters, num []byte) string {
 }
 
 func lineCase(iters, num string, tag string, withSpec bool) {
+	lineCaseRd(iters, num, tag, withSpec, "")
+}
+
+// lineCaseRd: as lineCase, but `rdStream` (if not empty) is what ONE long-lived Reader delivered for
+// this line inside a larger file (family `stream`), instead of a fresh Reader on the one-line file.
+func lineCaseRd(iters, num string, tag string, withSpec bool, rdStream string) {
 	myid := id
 	id++
 	if !mine(myid) {
@@ -189,7 +201,10 @@ func lineCase(iters, num string, tag string, withSpec bool) {
 		}
 		p("case %d kind=line iters=%s num=%s spec=%d tag=%s+%s\n", myid, hx.HexS(iters), hx.HexS(num), b01(withSpec), tag, cls)
 
-		rd := readLine(ib, nb)
+		rd := rdStream
+		if rd == "" {
+			rd = readLine(ib, nb)
+		}
 		p("obs %d rd=%s\n", myid, rd)
 
 		ra, raerr := benchfmt.VerifAtofC03(nb)
@@ -1143,6 +1158,97 @@ func genIters(r *hx.Rand) (string, string) {
 	}
 }
 
+// streamFamily: state carried from line to line inside ONE Reader. Files of 8–64 KiB (bufio.Scanner
+// refills its 4096-byte buffer many times) made of fixed-width lines `BenchmarkX <iters> <num> u`
+// whose number column holds non-integer texts of one length that recur with different neighbours:
+// 10.1, 10.2, …; 0.5, 1.0, 1.5; a small pool drawn at random; a constant with rare changes. The
+// whole file is read through one Reader; every line is then judged as a `line` case whose `rd=` is
+// what that Reader delivered for it: each value must be the correctly rounded value of ITS OWN text.
+func streamFamily(r *hx.Rand, files int) {
+	for f := 0; f < files; f++ {
+		iters := hx.Pick(r, []string{"1", "20", "300", "1000", "50000"})
+		var pool []string
+		w := 3 + r.Intn(6)
+		mk := func(v float64, prec int) string { return strconv.FormatFloat(v, 'f', prec, 64) }
+		kind := r.Intn(5)
+		switch kind {
+		case 0: // x.1, x.2, … same width
+			base := float64(int(math.Pow(10, float64(w-3)))) * (1 + float64(r.Intn(8)))
+			for i := 0; i < 9; i++ {
+				pool = append(pool, mk(base+float64(i+1)/10, 1))
+			}
+		case 1:
+			pool = []string{"0.5", "1.0", "1.5"}
+			if r.Bool() {
+				pool = []string{"0.25", "1.00", "1.75", "2.50"}
+			}
+		case 2: // the integers' neighbours: 100.0 / 101.75 / 4096.0 / 4128.0 …
+			pool = hx.Pick(r, [][]string{{"100.00", "101.75", "100.25"}, {"4096.0", "4128.0", "4100.5"}, {"10.0", "10.1", "10.9"}, {"1e3", "2e3", "1e4"}, {"0x1p4", "0x1p5", "0x3p3"}})
+		default: // random texts of one width
+			n := 3 + r.Intn(5)
+			for i := 0; i < n; i++ {
+				d := randDigits(r, w)
+				if d[0] == '0' {
+					d = "1" + d[1:]
+				}
+				k := 1 + r.Intn(w-1)
+				pool = append(pool, d[:k]+"."+d[k:])
+			}
+		}
+		lineLen := len("BenchmarkX ") + len(iters) + 1 + len(pool[0]) + len(" u\n")
+		lines := (8192 + r.Intn(57344)) / lineLen
+		nums := make([]string, lines)
+		for i := range nums {
+			switch {
+			case kind <= 1 || r.Chance(1, 3):
+				nums[i] = pool[i%len(pool)] // in order: each text recurs every len(pool) lines
+			case kind == 4 && !r.Chance(1, 10):
+				nums[i] = pool[0]
+			default:
+				nums[i] = hx.Pick(r, pool)
+			}
+		}
+		var buf bytes.Buffer
+		for _, n := range nums {
+			buf.WriteString("BenchmarkX " + iters + " " + n + " u\n")
+		}
+		// one Reader for the whole file (under the watchdog, like every call into the real code)
+		rds := make([]string, 0, lines)
+		okRead := false
+		if hangs < 3 && mineAny(id, lines) {
+			run(id, func() string {
+				return fmt.Sprintf("case %d kind=line iters=%s num=%s spec=0 tag=stream+hang\n", id, hx.HexS(iters), hx.HexS(nums[0]))
+			},
+				func(p func(string, ...any)) {
+					rd := benchfmt.NewReader(bytes.NewReader(buf.Bytes()), "f")
+					for rd.Scan() {
+						rds = append(rds, renderRec(rd.Result()))
+					}
+					okRead = rd.Err() == nil && len(rds) == lines
+				})
+		}
+		for i, n := range nums {
+			got := "none"
+			if okRead {
+				got = rds[i]
+			}
+			lineCaseRd(iters, n, "stream", true, got)
+		}
+	}
+}
+
+// mineAny: does this shard own one of the ids id … id+n-1?
+func mineAny(id, n int) bool {
+	return n >= nshards || func() bool {
+		for i := 0; i < n; i++ {
+			if mine(id + i) {
+				return true
+			}
+		}
+		return false
+	}()
+}
+
 // clampCases: the clamp of the exponent digit loop (`if e < 10000 { e = e*10 + digit }` in readFloat
 // and decimal.set). A literal below 100000 is read exactly; of a longer one the first five
 // significant digits are kept. That only shows when the mantissa text compensates the exponent:
@@ -1291,6 +1397,25 @@ func main() {
 	}
 
 	clampCases(r)
+	streamFamily(r, hx.N(8, 100))
+	// all-digit measurements of 18–20 digits around 2^63 and 10^19 (the int64 fast path of the reader's atof)
+	for _, c := range []string{"9223372036854775807", "9223372036854775808", "9223372036854775809", "9223372036854775817", "9999999999999999999", "10000000000000000000", "18446744073709551615", "18446744073709551616", "922337203685477580", "999999999999999999", "09223372036854775808", "9300000000000000000"} {
+		lineCase("1", c, "corpus", true)
+	}
+	for i := 0; i < hx.N(300, 6000); i++ {
+		b := new(big.Int)
+		switch r.Intn(3) {
+		case 0:
+			b.Lsh(big.NewInt(1), 63)
+			b.Add(b, big.NewInt(int64(r.Intn(2001)-1000)))
+		case 1:
+			b.Exp(big.NewInt(10), big.NewInt(int64(18+r.Intn(2))), nil)
+			b.Add(b, big.NewInt(int64(r.Intn(2001)-1000)))
+		default:
+			b.SetString(string(rune('1'+r.Intn(9)))+randDigits(r, 17+r.Intn(3)), 10)
+		}
+		lineCase(strconv.Itoa(1+r.Intn(99)), b.String(), "int19", true)
+	}
 
 	n := hx.N(60000, 1200000)
 	for i := 0; i < n; i++ {
